@@ -326,7 +326,7 @@ func (s *Scanner) scanHexadecimalEscape(numDigits int) string {
 	var escapedValue = s.scanExactNumberOfHexDigits(numDigits, false)
 
 	if escapedValue >= 0 {
-		return strconv.Itoa(escapedValue)
+		return string(rune(escapedValue))
 	} else {
 		s.error(M_Hexadecimal_digit_expected)
 		return ""
